@@ -25,7 +25,8 @@ def run(ck, rng):
         target = rng.choice([b"tgt", b"tgt", b"sub/tgt", b""])
         massive = rng.random() < 0.25
         pre = [(b"sentinel", "d"), (b"sentinel/keep.txt", "f"), (b"../outer_sentinel.txt", "f")]
-        if target:
+        missing_target = bool(target) and rng.random() < 0.3
+        if target and not missing_target:
             pre.append((clean_target(target), "d"))
             pre.append((tjoin(target, b"zz_keep"), "f"))
         if vname.startswith("md"):
@@ -47,11 +48,13 @@ def run(ck, rng):
             flat = flat_merged(its)
         else:
             flat = merged_items(items)[0]
-            op = ";".join(canonical_build(flat) + ["%s,0,%s,%s,%s,-,-,-,-" % ("M" if vname == "root" else "Md", dry, exts_plus(exts), hx(target))])
+            # other From-Root calls on the same tree first (they do not validate names): the mkdir that follows must still validate
+            before_ops = rng.choice([[], [], ["O,0,d,0,-,-,-,-,-"], ["W,0,-,-,-,-,-"], ["I,0,-,-,-,-,-"], ["O,0,j,0,-,-,-,-,-", "W,0,-,-,-,-,-"]])
+            op = ";".join(canonical_build(flat) + before_ops + ["%s,0,%s,%s,%s,-,-,-,-" % ("M" if vname == "root" else "Md", dry, exts_plus(exts), hx(target))])
             if rng.random() < 0.2:
                 op += "," + rng.choice("jyt")
         cases.append(("mhist " if massive else "hist ") + "F,%s;%s" % (snap_arg(pre), op))
-        meta.append((vname + ("_massive" if massive else "") + ("_dry" if dry == "1" else ""), flat, target, massive))
+        meta.append((vname + ("_massive" if massive else "") + ("_dry" if dry == "1" else "") + ("_notarget" if missing_target else ""), flat, target, massive))
     impl, _ = run_impl(exe, cases)
     model = run_model([c[1:] if c.startswith("m") else c for c in cases])
     broken = None
@@ -73,7 +76,9 @@ def run(ck, rng):
             continue
         after = parse_snap(snap)
         ct = clean_target(target)
-        inside = lambda p: (ct == b"." and p != b".." and not p.startswith(b"../")) or p == ct or p.startswith(ct + b"/")
+        # inside the target, or a missing prefix of the target itself (created as a directory by MkdirAll: C07_confined)
+        inside = lambda p: ((ct == b"." and p != b".." and not p.startswith(b"../")) or p == ct or p.startswith(ct + b"/")
+                            or (ct.startswith(p + b"/") and p not in before and after.get(p) == "d"))
         bad = None
         outside_changes = [p for p in set(before) | set(after) if before.get(p) != after.get(p) and not inside(p)]
         inside_damage = [p for p in before if before.get(p) != after.get(p)]
@@ -86,6 +91,10 @@ def run(ck, rng):
                 bad = "a name that is not a single valid path element (%r) was accepted" % bad_names[0][:30]
             elif not massive and after != before:
                 bad = "invalid name rejected but something was created: %r" % [p for p in after if p not in before][:3]
+            elif massive and "_notarget" in name and r.startswith("err:invalid") and len(flat) >= 1 and flat[0][0] == 1 and sum(1 for d, _ in flat if d == 1) == 1 and after != before:
+                bad = "single-root tree rejected for its names, but the missing target directory was created"
+        elif "_dry" in name and after != before:
+            bad = "a dry run created something: %r" % [p for p in after if p not in before][:3]
         if bad:
             ck.violation({"property": "C07", "kind": "mkdir_confined", "class": name + "|" + bad[:24], "case": cases[i],
                           "got": impl[i][-600:], "why": bad, "expected": model[i][-600:]})
